@@ -139,9 +139,9 @@ func init() {
 				Witnesses: []string{"unreachable-member", "unreachable-non-member"}, Deadline: 30 * time.Minute}}
 		},
 		Bounds: func(tier string) string {
-			return fmt.Sprintf("histories of %d messages (handshake from any peer / member list with symbolic contents / unreachable report for any member address or an unknown address) over a universe of %d members", tierSel(tier, 3, 4), tierSel(tier, 3, 4))
+			return fmt.Sprintf("histories of %d messages (handshake from any peer / member list with symbolic contents / RemoteUnreachableEvent for any member address or an unknown address, delivered to the provider's event-stream child handler and forwarded by it) over a universe of %d members", tierSel(tier, 3, 4), tierSel(tier, 3, 4))
 		},
-		Outside:     []string{"the Started handler (zeroconf announce/browse, ping repeater) and the event-stream child that turns RemoteUnreachableEvent into memberLeave", "two members sharing one host address", "map iteration order: one order explored"},
+		Outside:     []string{"the Started handler (zeroconf announce/browse, ping repeater); the event-stream child's handler is driven directly (its subscription to the event stream is not)", "two members sharing one host address", "map iteration order: one order explored"},
 		Assumptions: seqAssume("SelfManaged built by its producer on a Cluster value with a bare engine, a recording agent process and a recording remote; its own member added as Started does; messages delivered by calling Receive"),
 	})
 
@@ -314,12 +314,12 @@ func init() {
 		ID: "C19",
 		Harnesses: func(tier string) []HarnessSpec {
 			return []HarnessSpec{{Name: "multi-agent-history", Pkg: "cluster", Func: "ZZ_C19", Preempt: 0, Params: pm("N", tierSel(tier, 2, 3), "K", 3),
-				Witnesses: []string{"remote-activation", "duplicate-activation", "deactivate", "join-with-active-actors", "leave-with-hosted-actor"}, Deadline: 60 * time.Minute}}
+				Witnesses: []string{"remote-activation", "duplicate-activation", "deactivate", "join-with-active-actors", "leave-with-hosted-actor", "cluster-spawn"}, Deadline: 60 * time.Minute}}
 		},
 		Bounds: func(tier string) string {
-			return fmt.Sprintf("%d nodes, each registering kind 'a' or not (symbolic), the last one joining later; quiescent histories of 3 operations (activate a/x or a/y from any member with the select function picking any offered member, deactivate any active actor from any member, late join, leave of a member other than node 0; operation symbolic), notifications delivered in every arrival order before the next operation", tierSel(tier, 2, 3))
+			return fmt.Sprintf("%d nodes, each registering kind 'a' or not (symbolic), the last one joining later; quiescent histories of 3 operations (activate a/x or a/y from any member with the select function picking any offered member and returning it either as the offered pointer or as a Member value of its own (symbolic), deactivate any active actor from any member, late join, leave of a member other than node 0, a Cluster.Spawn-style announcement of an actor b/z hosted on any member whatever its kinds; operation symbolic), notifications delivered in every arrival order before the next operation", tierSel(tier, 2, 3))
 		},
-		Outside:     []string{"non-quiescent histories (operations overlapping their notifications)", "Cluster.Activate/GetActiveByID request plumbing: the agents are driven by the same messages those methods send", "Cluster.Spawn (sends the same Activation notification)", "more kinds / ids / members / operations", "SelectRandomMember (a harness select function picks every offered member instead)"},
+		Outside:     []string{"non-quiescent histories (operations overlapping their notifications)", "Cluster.Activate/GetActiveByID request plumbing: the agents are driven by the same messages those methods send", "Cluster.Spawn's own plumbing (Members() request): the harness spawns on the node's engine and sends the same Activation notifications", "more kinds / ids / members / operations", "SelectRandomMember (a harness select function picks every offered member instead)"},
 		Assumptions: seqAssume("each node: real Agent on a bare engine; network: synchronous in-memory Remoter delivering to the target node's registry; ActivationRequest/activate/getActive are handled at once (their senders block on them), all other agent messages are queued and drained in a harness-chosen order; activated actors are real processes spawned by Engine.Spawn (preemption bound 0: their inbox workers run when the harness blocks or quiesces)"),
 	})
 }
